@@ -146,7 +146,8 @@ check("C04",
            "this(T) == symbol(identifier this, T), label(default) == default_value(), linkage C/C++ == the constants); in every final "
            "state: one Identifier node per spelling among all reachable ones (incl. names of the 26 built-ins and 5 constants), and "
            "operator== on logogram/linkage/convention values <=> equal spelling; all 56 reserved words through both get_identifier "
-           "overloads; long histories of 1024 (4096) keys per constructor x 3 insertion orders x 4 address modes.",
+           "overloads; long histories of 1024 (4096) keys per constructor x 3 insertion orders x 4 address modes; 70000 (200000) distinct "
+           "identifiers, each re-requested and re-read afterwards.",
       text="All request histories up to the bound on the real name/expression factories under controlled address orders, "
            "against a key->node reference model plus two whole-state invariants.",
       note="Identity is compared on interface pointers of the same interface type. The model identifies label(id) with "
@@ -162,7 +163,10 @@ check("C07",
            "on a fresh Lexicon with an address personality chosen by the history; in every final state the scope is compared with the "
            "plain vector model: elements() order, Product type, lookup of every name (3 declared-or-not + 1 never declared), selection by "
            "every type, and per declaration category/name/type/master/decl_set; plus all arrangements of <= 5 parameters (x 3^n types), "
-           "enumerators, <= 4 bases, 0..3 handlers: positions, singleton sets, lookup. distinct_nontrivial = histories with a redeclaration.",
+           "enumerators, <= 4 bases, 0..3 handlers: positions, singleton sets, lookup; scopes are examined at the end of a history, and "
+           "additionally after exactly one step (every step) and after every step; one name with 12 and 40 (200) pairwise distinct "
+           "types through three declaration kinds, every type selected after every addition, every pair redeclared; member lists of "
+           "300 and 1100 (70000). distinct_nontrivial = histories with a redeclaration.",
       text="Every declaration history up to the bound is executed on the real scope machinery and the whole scope is "
            "compared with a vector reference model.",
       note="Each (name,type) pair is only ever used by one declaration kind, as the property requires; names within one "
@@ -318,8 +322,8 @@ check("C05",
       rule="(A) every entry of the factory table + internals is fingerprinted through every accessor of its interface (nodes named by "
            "creation index), then the table is rebuilt 11 times with every other operand rotation in units of their own on the same "
            "Lexicon and every fingerprint is recomputed: byte-identical; generative rows pairwise distinct (4 quick / 12 thorough base "
-           "rotations). (B) EVERY ordered history of <= 4 (quick) / <= 5 (thorough) operations (one less under ASan) over a 21-operation alphabet, one per "
-           "storage mechanism (farm, tree, string pool, unified literal, symbol keyed on name+type, enumerators, parameters, bases, "
+           "rotations). (B) EVERY ordered history of <= 4 (quick) / <= 5 (thorough) operations (one less under ASan) over a 22-operation alphabet, one per "
+           "storage mechanism (farm, tree, string pool, unified literal, symbol keyed on name+type, label of the same name, enumerators, parameters, bases, "
            "handlers, module units, pragma tokens, captures, using-designators, scope members, redeclaration, expression-list members, "
            "warehouse product with the warehouse destroyed and its storage scribbled, sub-region, class fields, block statements, "
            "binding names): after EVERY step every node returned so far is re-read through every accessor -- identical, except that "
